@@ -193,7 +193,7 @@ def sv_line(d):
 
 
 def gen_session(rng, quick):
-    n = rng.wchoice([(1, 1), (2, 3), (3, 3), (4, 3), (6, 3), (10, 3), (18, 2), (30, 1 if quick else 2), (60, 0 if quick else 1), (130, 0)]) if not (not quick and rng.chance(0.03)) else 130
+    n = rng.wchoice([(1, 1), (2, 3), (3, 3), (4, 3), (6, 3), (10, 3), (18, 2), (30, 1 if quick else 2), (60, 0 if quick else 1), (130, 0)]) if not (not quick and rng.chance(0.004)) else 130
     n = max(1, n + rng.rint(-1, 1)) if n > 3 else n
     kind, cols = gen_matrix(rng, n)
     extra = gen_pool(rng, cols, n, rng.rint(2, 12))
@@ -328,13 +328,13 @@ def check_session(sess, tr, rep, ev, lean_lines):
 
 # ------------------------------------------------------------------ API level
 def api_jobs(rng, quick):
-    lps = lpfam.mixed(rng.fork("mixed"), 60 if quick else 800)
-    lps += [("random", gen.random_lp(rng, m=rng.rint(2, 9), n=rng.rint(2, 9), dens=0.6)) for _ in range(40 if quick else 600)]
+    lps = lpfam.mixed(rng.fork("mixed"), 60 if quick else 300)
+    lps += [("random", gen.random_lp(rng, m=rng.rint(2, 9), n=rng.rint(2, 9), dens=0.6)) for _ in range(40 if quick else 200)]
     lps += [("wide", lpfam.wide_chain(rng, n)) for n in ([50] * 2 if quick else [50] * 10 + [100] * 4)]
     jobs = []
     # long pivot-in walks over a completely degenerate LP (min 0, A x <= 0, x >= 0: every basis is optimal), re-optimised
     # after a cache-invalidating edit: more than etamax (100) updates accumulate between refactorizations
-    for w in range(4 if quick else 40):
+    for w in range(4 if quick else 16):
         r = rng.fork("walk%d" % w)
         filling = w % 2 == 0
         # 'filling' walks: few rows, many columns (most pivot-ins are real basis changes), always re-optimised, so that no
@@ -474,7 +474,7 @@ def run(pid, tier, seed):
             lines.append("fupd %d %d" % (op[1], op[2]) if op[0] == "u" else ("fftran " if op[0] == "f" else "fbtran ") + sv_line(op[1]))
         sessions.append({"n": n, "kind": "exhaustive %dx%d" % (n, n), "pool": pool, "ops": ops, "lines": lines, "par": []})
     r1 = rng.fork("sessions")
-    for _ in range(500 if quick else 12000):
+    for _ in range(500 if quick else 4000):
         sessions.append(gen_session(r1, quick))
     groups = core.chunks(sessions, build.NCPU * 4)
     def work(group):
